@@ -72,6 +72,38 @@ SIDS = ['a"b', "a\\b", "\\", '"', "\x00", "\x01\x02\x1f", "\n\r\t", "\x7f", " 
 SID_NONSTR = [5, 0, -1, 1.5, True, False, None, [], [1], ["a"], {}, {"a": 1}, 2 ** 64]
 
 
+# kinds the relay treats specially (replaceable, deletion, ephemeral, parameterized replaceable and their boundaries) x the tags
+# its storage code looks into (d, e, a, p, expiration, delegation): whatever is accepted must be served as it was signed
+KIND_GRAMMAR = [0, 3, 5, 7, 10000, 19999, 20000, 29999, 30000, 39999, 40000]
+SPECIAL_TAGS = [
+    [["d"]], [["d", ""]], [["d", "a"]], [["d", "a"], ["d", "b"]], [["t", "x"], ["d"]], [["d"], ["d", "z"]], [["d", "a", "extra"]], [["d", 1]], [["d", None]],
+    [["e"]], [["e", ""]], [["e", "zz"]], [["e", "ab" * 32]], [["e", "ab" * 32], ["e"]], [["e", "AB" * 32]], [["e", 5]],
+    [["a"]], [["a", "30000:%s:x" % ("ab" * 32)]], [["p"]], [["p", "ab" * 32, "wss://r"]], [["p", "AB" * 32]],
+    [["expiration"]], [["expiration", ""]], [["expiration", "abc"]], [["expiration", "99999999999"]], [["expiration", 99999999999]],
+    [["expiration", "99999999999", "x"]], [["delegation"]], [["delegation", "ab" * 32]], [["D", "a"]], [["d", "a"], ["e", "ab" * 32], ["expiration", "99999999999"]],
+]
+
+
+def run_kindgrammar(case):
+    _, backend, kind, _, tier = case
+    kind = int(kind)
+    sess = seq.session(backend)
+    viol = []
+    cid = "%s|kindgrammar|%d" % (backend, kind)
+    n = 0
+    accepted = 0
+    for k, tags in enumerate(SPECIAL_TAGS):
+        try:
+            ev = make_event("A", kind, 3000 + k, tags, "kg")
+        except Exception:
+            continue
+        label = "kind=%d tags=%s" % (kind, json.dumps(tags)[:70])
+        if roundtrip(sess, backend, ev, label, viol, cid, must_accept=False):
+            accepted += 1
+        n += 1
+    return viol, n, accepted
+
+
 def cases(tier):
     out = []
     for backend in ("sql", "kv"):
@@ -83,6 +115,8 @@ def cases(tier):
         for lo in range(0, len(sel), 64):
             out.append(("sid", backend, "subid", tuple(sel[lo:lo + 64]), tier))
         out.append(("taggrammar", backend, "", (), tier))
+        for kind in KIND_GRAMMAR:
+            out.append(("kindgrammar", backend, str(kind), (), tier))
         out.append(("sidgrammar", backend, "", (), tier))
         out.append(("framekinds", backend, "", (), tier))
     return out
@@ -396,6 +430,9 @@ def run_case(case):
     elif mode == "taggrammar":
         viol, n, acc = run_taggrammar(case)
         extra["tag_shapes_accepted_%s" % case[1]] = acc
+    elif mode == "kindgrammar":
+        viol, n, acc = run_kindgrammar(case)
+        extra["special_kind_tag_shapes_accepted_%s" % case[1]] = acc
     elif mode == "sidgrammar":
         viol, n = run_sidgrammar(case)
     else:
@@ -412,10 +449,12 @@ def coverage(tier, agg):
         "rule": "code points: %d of %d packets of 256 consecutive Unicode scalar values (thorough: all 1,112,064 scalar values) in content, tag value "
                 "and tag name, each packet submitted as a signed event and read back through live push, stored REQ answer and HTTP /e/<id>; "
                 "subscription ids: packets of 48 scalar values as the sub id of a REQ (EVENT + EOSE must carry it verbatim); tag grammar: %d JSON "
-                "values at tag[0], tag[1], tag[2] plus empty tag / empty list ('if accepted'); sub-id grammar: %d strings + %d non-string values, "
+                "values at tag[0], tag[1], tag[2] plus empty tag / empty list ('if accepted'); kind grammar: %d special kinds (replaceable, deletion, "
+                "ephemeral, parameterized, boundaries) x %d shapes of the tags the storage code interprets (d, e, a, p, expiration, delegation: bare, "
+                "empty, repeated, non-string, malformed); sub-id grammar: %d strings + %d non-string values, "
                 "stored and live; frame kinds: AUTH, OK true/duplicate/invalid/rate-limited, NOTICE, EOSE, EVENT. Oracle: stdlib json parse, "
                 "NIP-01 frame shape, sub id equal, event field-for-field equal (type-exact) and still authentic. A failing packet is shrunk to "
-                "single code points for the report." % (npk, len(packets(PACK)), len(TAG_ITEMS), len(SIDS), len(SID_NONSTR)),
+                "single code points for the report." % (npk, len(packets(PACK)), len(TAG_ITEMS), len(KIND_GRAMMAR), len(SPECIAL_TAGS), len(SIDS), len(SID_NONSTR)),
         "backends": ["sql", "kv"],
     }
 
